@@ -59,7 +59,12 @@ ALookup == On("Lookup") /\ \E t \in LiveTab(S), how \in {"getattr", "row"} :
              \E acc \in RangeOf(Accessors(NamesOf(S, t))) :      \* only ADVERTISED accessors are constrained (C17)
              Do(Lookup(S, t, acc, how), Act("Lookup", t, 0, 0, 0, <<>>, acc \o "|" \o how, ""))
 
-Next == ANewVec \/ AShareVec \/ ADropTuple \/ ACopy \/ ADrop \/ AWrite \/ AReadFpV \/ ANewTable
+AWriteByName == On("WriteByName") /\ \E t \in LiveTab(S) : \E i \in 1..Len(S.cols[t]) :
+             \E r \in 1..Len(Contents(S, S.cols[t][i])), x \in Vals, s \in One :
+             Do(WriteVec(S, S.cols[t][i], r, x, s), Act("Write", S.cols[t][i], s, r, x, <<>>, "byname", ""))
+ADir == On("Dir") /\ \E t \in LiveTab(S) : Do(Dir(S, t), Act("Dir", t, 0, 0, 0, <<>>, NoName, ""))
+
+Next == AWriteByName \/ ADir \/ ANewVec \/ AShareVec \/ ADropTuple \/ ACopy \/ ADrop \/ AWrite \/ AReadFpV \/ ANewTable
         \/ ASetAttr \/ AColView \/ ADropTable \/ AReadFpT \/ ARename \/ ARenameColumn \/ ALookup
 Spec == Init /\ [][Next]_vars
 Bound == Len(path) < MaxDepth
@@ -109,7 +114,7 @@ WritesLocalStep ==
     last'.a \in {"Write", "SetAttr"} =>
         \A x \in (st.live \cap st'.live) \ Entity(st, last'.x) : ViewOf(st', x) = ViewOf(st, x)
 PureOpsStep ==
-    last'.a \in {"NewVec", "ShareVec", "Copy", "ReadFpV", "ReadFpT", "NewTable", "ColView", "Lookup", "Drop", "DropTuple", "DropTable"} =>
+    last'.a \in {"NewVec", "ShareVec", "Copy", "ReadFpV", "ReadFpT", "NewTable", "ColView", "Lookup", "Dir", "Drop", "DropTuple", "DropTable"} =>
         \A x \in st.live \cap st'.live : ViewOf(st', x) = ViewOf(st, x)
 FailedStep == last'.res \in {"Refused", "Err"} => st' = st
 WriteChangesFpStep ==
